@@ -1,6 +1,7 @@
 package main
 
 import (
+	"sync/atomic"
 	"encoding/json"
 	"flag"
 	"fmt"
@@ -224,7 +225,7 @@ func realMain() int {
 		return false
 	}
 	for _, c := range db.units {
-		if c.Trusted {
+		if c.Trusted || (c.Target == nil && c.Sig != nil && len(c.Impls) == 0) {
 			continue
 		}
 		if hasProp(c.Props) && strings.Contains(c.Fn.Name(), *flagUnit) {
@@ -279,19 +280,17 @@ func realMain() int {
 		// vacuity: some complete path must be satisfiable
 		ur.Cover = "skipped"
 		if !*flagNoCover {
-			ur.Cover = "none"
-			for i, f := range finals {
-				if i >= 60 {
-					break
+			ur.Cover = coverCheck(x, finals)
+			if ur.Cover != "sat" && *flagDump != "" && len(finals) > 0 {
+				os.MkdirAll(*flagDump, 0o755)
+				var b strings.Builder
+				b.WriteString("(set-option :produce-unsat-cores true)\n")
+				b.WriteString(x.d.preamble())
+				for i, c := range finals[0].pc {
+					b.WriteString(fmt.Sprintf("(assert (! %s :named a%d))\n", pcPlain(c), i))
 				}
-				r := x.pathSat(f)
-				if r.Status == "sat" {
-					ur.Cover = "sat"
-					break
-				}
-				if r.Status != "unsat" {
-					ur.Cover = "unknown"
-				}
+				b.WriteString("(check-sat)\n(get-unsat-core)\n")
+				os.WriteFile(filepath.Join(*flagDump, "final0.smt2"), []byte(b.String()), 0o644)
 			}
 		}
 		ur.Obligations = groupObligations(x.obls)
@@ -453,4 +452,65 @@ func relevantModel(m string) string {
 		s = s[:3000] + "..."
 	}
 	return s
+}
+
+// coverCheck: some complete path must be satisfiable (vacuity guard).
+func coverCheck(x *Run, finals []*State) string {
+	if len(finals) == 0 {
+		return "none"
+	}
+	found := make(chan string, len(finals))
+	var stop int32
+	sem := make(chan struct{}, 8)
+	n := 0
+	var cand []*State
+	for _, f := range finals {
+		dead := false
+		for _, c := range f.pc {
+			if pcPlain(c) == "false" {
+				dead = true
+				break
+			}
+		}
+		if !dead {
+			cand = append(cand, f)
+		}
+	}
+	if *flagVerbose {
+		fmt.Printf("   cover: %d finals, %d without literal false\n", len(finals), len(cand))
+	}
+	for i, f := range cand {
+		if i >= 400 {
+			break
+		}
+		n++
+		go func(f *State) {
+			sem <- struct{}{}
+			defer func() { <-sem }()
+			if atomic.LoadInt32(&stop) != 0 {
+				found <- "skip"
+				return
+			}
+			var b strings.Builder
+			b.WriteString(x.d.preamble())
+			for _, c := range f.pc {
+				b.WriteString("(assert " + pcPlain(c) + ")\n")
+			}
+			r := solve(b.String(), 3, false, []string{"z3-new"})
+			if r.Status == "sat" {
+				atomic.StoreInt32(&stop, 1)
+			}
+			found <- r.Status
+		}(f)
+	}
+	res := "none"
+	for i := 0; i < n; i++ {
+		s := <-found
+		if s == "sat" {
+			res = "sat"
+		} else if s != "unsat" && s != "skip" && res == "none" {
+			res = "unknown"
+		}
+	}
+	return res
 }
